@@ -533,7 +533,9 @@ pub fn check(req: &Req, ent: &EntSpec, obs: &ServeObs, m: &Model, out: &mut Vec<
     let has_range = req.get("range").is_some();
     // ---- totality (C13) --------------------------------------------------------------
     if let Some(p) = &obs.panic {
-        let mut props = vec!["C13"];
+        // serve() crashing on a request inside a property's quantifier leaves that property
+        // without any response to hold on: it counts for every serve property.
+        let mut props = vec!["C13", "C01", "C02", "C04", "C05", "C06", "C07", "C12", "C14", "C15"];
         if has_range {
             props.push("C03");
         }
